@@ -217,7 +217,7 @@ func init() {
 	run.Register(run.Prop[PairCase]{
 		ID:    "C06",
 		Level: "exploration",
-		Rule: "case = configuration + history of the old tree + mode (new = clone of old + <=12 ops / reload of old + ops / unrelated history over the same key pool / same version) + residency of each side (in memory, persisted in place, reloaded) + nil-old flag + stop index/kind. Oracle: difference of the two model maps (keys whose presence or value differs, ascending, with kind and old/new values) must equal the DiffIter callback sequence AND the StartDiff/NextEntry sequence (followed by ErrNoMoreDiffs twice); a callback returning false / an error at index s gives exactly s+1 invocations and nil / that error; both trees unchanged afterwards. " +
+		Rule: "case = configuration + history of the old tree + mode (new = clone of old + <=12 ops / reload of old + ops / unrelated history over the same key pool / same version) + residency of each side (in memory, persisted in place, reloaded through the shared cache / no cache / a cache of its own, an unsaved clone of a clone) + nil-old flag + stop index/kind. Oracle: difference of the two model maps (keys whose presence or value differs, ascending, with kind and old/new values) must equal the DiffIter callback sequence AND the StartDiff/NextEntry sequence (followed by ErrNoMoreDiffs twice); a callback returning false / an error at index s gives exactly s+1 invocations and nil / that error; both trees unchanged afterwards. " +
 			"Non-trivial = both sides non-empty AND (unrelated trees OR different heights) AND at least one add, one remove and one change; distinct by case hash",
 		Assumptions: []string{"both trees have the same configuration (the property's precondition)"},
 		Gen:         genC06,
